@@ -639,9 +639,24 @@ fn cmd_encs(args: &[String]) -> i32 {
             }
         }
     }
-    let report = json!({"records": recs.len(), "pass": pass, "fail": nfail, "failures": fails, "samples": samples});
+    // long programs through one builder object
+    let sizes: Vec<usize> = vec![1, 4096, 65536, 124_999, 125_000, 131_072, 200_000];
+    let long = run_isolated(&sizes, 120000, |n| json!(enc::builder_long(*n)));
+    for (n, r) in sizes.iter().zip(long.iter()) {
+        let bad: Vec<String> = match r {
+            ChildResult::Done(v) => arr(v).iter().map(|x| x.as_str().unwrap_or("").to_string()).collect(),
+            _ => vec![format!("building a program of {} instructions crashed the process", n + 1)],
+        };
+        if bad.is_empty() {
+            pass += 1;
+        } else {
+            nfail += 1;
+            fails.push(json!({"record": {"kind": "builder-long", "instructions": n + 1}, "reason": bad.join(" | ")}));
+        }
+    }
+    let report = json!({"records": recs.len() + sizes.len(), "pass": pass, "fail": nfail, "failures": fails, "samples": samples});
     std::fs::write(report_path, serde_json::to_string(&report).unwrap()).unwrap();
-    println!("encs: {} records, {} pass, {} fail", recs.len(), pass, nfail);
+    println!("encs: {} records, {} pass, {} fail", recs.len() + sizes.len(), pass, nfail);
     0
 }
 
